@@ -459,41 +459,52 @@ def intersperseOld (old : Nat) : List Nat → RefTarget
   | [n] => [some n]
   | n :: rest => some n :: some old :: intersperseOld old rest
 
+/-- the bookmarks (resp. workspaces) whose target is a key of the resolved mapping, collected
+    before anything is changed: `(name, old id, resolved new ids)` -/
+def changedBookmarks (v : View) (rm : List (Nat × List Nat)) : List (Nat × Nat × List Nat) :=
+  v.bookmarks.flatMap fun (name, t) =>
+    t.addedIds.filterMap fun i => (rm.lookup i).map fun news => (name, i, news)
+
+def changedWcs (v : View) (rm : List (Nat × List Nat)) : List (Nat × Nat × List Nat) :=
+  v.wc.filterMap fun (ws, c) => (rm.lookup c).map fun news => (ws, c, news)
+
+def isAbandonedKey (m : Mapping) (old : Nat) : Bool :=
+  match m.get old with
+  | some rw => rw.isAbandoned
+  | none => false
+
+/-- the target a bookmark at `old` is merged with -/
+def bookmarkNewTarget (m : Mapping) (opts : Options) (old : Nat) (news : List Nat) : RefTarget :=
+  if opts.deleteAbandoned && isAbandonedKey m old then RefTarget.absent else intersperseOld old news
+
+/-- body of the loop of `update_local_bookmarks` -/
+def Repo.bookmarkStep (opts : Options) (r : Repo) (e : Nat × Nat × List Nat) : Repo :=
+  r.mergeLocalBookmark e.1 (RefTarget.normal e.2.1) (bookmarkNewTarget r.mapping opts e.2.1 e.2.2)
+
 /-- `update_local_bookmarks` -/
 def Repo.updateLocalBookmarks (r : Repo) (rm : List (Nat × List Nat)) (opts : Options) : Repo :=
-  let changed : List (Nat × Nat × List Nat) :=
-    r.view.bookmarks.flatMap fun (name, t) =>
-      t.addedIds.filterMap fun i => (rm.lookup i).map fun news => (name, i, news)
-  changed.foldl (fun (r : Repo) (name, old, news) =>
-    let shouldDelete := opts.deleteAbandoned &&
-      (match r.mapping.get old with
-       | some rw => rw.isAbandoned
-       | none => false)
-    let newTarget : RefTarget := if shouldDelete then RefTarget.absent else intersperseOld old news
-    r.mergeLocalBookmark name (RefTarget.normal old) newTarget) r
+  (changedBookmarks r.view rm).foldl (Repo.bookmarkStep opts) r
+
+/-- body of the loop of `update_wc_commits`; the second component is `recreated_wc_commits` -/
+def Repo.wcStep (st : Option (Repo × List (Nat × Nat))) (e : Nat × Nat × List Nat) :
+    Option (Repo × List (Nat × Nat)) :=
+  match st with
+  | none => none
+  | some (r, recreated) =>
+    if !isAbandonedKey r.mapping e.2.1 then
+      match e.2.2 with
+      | [] => none
+      | n :: _ => (r.edit e.1 n).map fun r => (r, recreated)
+    else
+      match recreated.lookup e.2.1 with
+      | some c => (r.edit e.1 c).map fun r => (r, recreated)
+      | none =>
+        let rc := r.writeNew e.2.2 0 (mergeCommitTrees r.store e.2.2)
+        (rc.1.edit e.1 rc.2).map fun r => (r, recreated ++ [(e.2.1, rc.2)])
 
 /-- `update_wc_commits` -/
 def Repo.updateWcCommits (r : Repo) (rm : List (Nat × List Nat)) : Option Repo :=
-  let changed : List (Nat × Nat × List Nat) :=
-    r.view.wc.filterMap fun (ws, c) => (rm.lookup c).map fun news => (ws, c, news)
-  (changed.foldl (fun (st : Option (Repo × List (Nat × Nat))) (ws, old, news) =>
-    match st with
-    | none => none
-    | some (r, recreated) =>
-      let abandonedOld := match r.mapping.get old with
-        | some rw => rw.isAbandoned
-        | none => false
-      if !abandonedOld then
-        match news with
-        | [] => none
-        | n :: _ => (r.edit ws n).map fun r => (r, recreated)
-      else
-        match recreated.lookup old with
-        | some c => (r.edit ws c).map fun r => (r, recreated)
-        | none =>
-          let (r, c) := r.writeNew news 0 (mergeCommitTrees r.store news)
-          (r.edit ws c).map fun r => (r, recreated ++ [(old, c)]))
-    (some (r, []))).map (·.1)
+  ((changedWcs r.view rm).foldl Repo.wcStep (some (r, []))).map (·.1)
 
 /-- `update_heads` -/
 def Repo.updateHeads (r : Repo) : Repo :=
@@ -541,52 +552,73 @@ inductive Step where
   | abandoned (old parent : Nat)
   deriving DecidableEq, Repr
 
+/-- `CommitRewriter::simplify_ancestor_merge` (when the option is set) -/
+def simplifyParents (s : Store) (opts : Options) (nps : List Nat) : List Nat :=
+  if opts.simplify then
+    let hs := headsOf s nps
+    nps.filter hs.contains
+  else nps
+
+/-- the `(was_empty, new_tree)` pair of `rebase_with_empty_behavior` -/
+def rebaseTree (s : Store) (old : Nat) (nps : List Nat) : Bool × List Nat :=
+  let oldParents := parentsOf s old
+  let oldTree := treeOf s old
+  if nps.map (treeOf s) == oldParents.map (treeOf s) then (true, oldTree)
+  else
+    let oldBase := mergeCommitTrees s oldParents
+    let newBase := mergeCommitTrees s nps
+    (oldBase == oldTree, merge3 newBase oldBase oldTree)
+
+/-- `should_abandon`: only a single new parent can swallow an emptied commit -/
+def abandonOnto (s : Store) (opts : Options) (nps : List Nat) (wasEmpty : Bool) (newTree : List Nat) :
+    Option Nat :=
+  match nps with
+  | [p] =>
+    let same := treeOf s p == newTree
+    if (opts.empty == 1 && same && !wasEmpty) || (opts.empty == 2 && same) then some p else none
+  | _ => none
+
+def descOf (s : Store) (i : Nat) : Nat :=
+  match s[i]? with
+  | some c => c.desc
+  | none => 0
+
 /-- `rebase_commit_with_options` applied to `CommitRewriter::new(repo, old, newParents)` -/
 def Repo.rebaseCommit (r : Repo) (old : Nat) (newParents : List Nat) (opts : Options) :
     Repo × Step :=
-  let newParents :=
-    if opts.simplify then
-      let hs := headsOf r.store newParents
-      newParents.filter hs.contains
-    else newParents
-  let oldParents := parentsOf r.store old
-  let oldTree := treeOf r.store old
-  let (wasEmpty, newTree) :=
-    if newParents.map (treeOf r.store) == oldParents.map (treeOf r.store) then (true, oldTree)
-    else
-      let oldBase := mergeCommitTrees r.store oldParents
-      let newBase := mergeCommitTrees r.store newParents
-      (oldBase == oldTree, merge3 newBase oldBase oldTree)
-  let abandonOnto : Option Nat :=
-    match newParents with
-    | [p] =>
-      let same := treeOf r.store p == newTree
-      if (opts.empty == 1 && same && !wasEmpty) || (opts.empty == 2 && same) then some p else none
-    | _ => none
-  match abandonOnto with
-  | some p => ({ r with mapping := r.mapping.insert old (.abandoned newParents) }, .abandoned old p)
+  let nps := simplifyParents r.store opts newParents
+  let wt := rebaseTree r.store old nps
+  match abandonOnto r.store opts nps wt.1 wt.2 with
+  | some p => ({ r with mapping := r.mapping.insert old (.abandoned nps) }, .abandoned old p)
   | none =>
-    let desc := match r.store[old]? with
-      | some c => c.desc
-      | none => 0
-    let (r, n) := r.writeRewrite old newParents desc newTree
-    (r, .rewritten old n)
+    let rn := r.writeRewrite old nps (descOf r.store old) wt.2
+    (rn.1, .rewritten old rn.2)
 
-/-- the `while let Some(old_commit) = to_visit.pop()` loop of `transform_commits` with the
-    callback of `rebase_descendants_with_options` -/
+/-- one iteration of the `while let Some(old_commit) = to_visit.pop()` loop of
+    `transform_commits` with the callback of `rebase_descendants_with_options`:
+    compute `new_parents`, rebase only if they changed.  `none` = `new_parents` panicked. -/
+def Repo.transformStep (opts : Options) (r : Repo) (old : Nat) : Option (Repo × Option Step) :=
+  match newParents r.mapping (parentsOf r.store old) with
+  | none => none
+  | some nps =>
+    if nps != parentsOf r.store old then
+      let rs := r.rebaseCommit old nps opts
+      some (rs.1, some rs.2)
+    else some (r, none)
+
+/-- the loop itself -/
 def Repo.transformLoop (opts : Options) : List Nat → Repo → List Step → Option (Repo × List Step)
   | [], r, steps => some (r, steps)
   | old :: rest, r, steps =>
-    match newParents r.mapping (parentsOf r.store old) with
+    match r.transformStep opts old with
     | none => none
-    | some nps =>
-      if nps != parentsOf r.store old then
-        let (r, st) := r.rebaseCommit old nps opts
-        Repo.transformLoop opts rest r (steps ++ [st])
-      else Repo.transformLoop opts rest r steps
+    | some (r, some st) => Repo.transformLoop opts rest r (steps ++ [st])
+    | some (r, none) => Repo.transformLoop opts rest r steps
 
-/-- `rebase_descendants_with_options(immutable, options, progress)` -/
-def Repo.rebaseDescendants (r : Repo) (immutable : List Nat) (opts : Options) :
+/-- `rebase_descendants_with_options(immutable, options, progress)` up to (not including) the
+    final `parent_mapping.clear()`; the mapping of the result is the complete record of what was
+    rewritten or abandoned, by the caller and by the rebase itself. -/
+def Repo.rebaseDescendantsCore (r : Repo) (immutable : List Nat) (opts : Options) :
     Except Err (Repo × List Step) :=
   let toVisit := r.findDescendantsForRebase immutable
   match r.orderCommitsForRebase toVisit with
@@ -598,6 +630,13 @@ def Repo.rebaseDescendants (r : Repo) (immutable : List Nat) (opts : Options) :
     | some (r, steps) =>
       match r.updateRewrittenReferences opts with
       | .error e => .error e
-      | .ok r => .ok ({ r with mapping := [] }, steps)
+      | .ok r => .ok (r, steps)
+
+/-- `rebase_descendants_with_options` -/
+def Repo.rebaseDescendants (r : Repo) (immutable : List Nat) (opts : Options) :
+    Except Err (Repo × List Step) :=
+  match r.rebaseDescendantsCore immutable opts with
+  | .error e => .error e
+  | .ok (r, steps) => .ok ({ r with mapping := [] }, steps)
 
 end JjModel.Repo
